@@ -365,8 +365,8 @@ func c08Run(dir string, scenario string) c08Obs {
 		g := arch.NewArchApp().Analysis(deps, core_domain.BuildIdentifierMap(idents))
 		render := func(tag string, fg *tequila.FullGraph) {
 			var ns, rs []string
-			for k := range fg.NodeList {
-				ns = append(ns, k)
+			for k, v := range fg.NodeList {
+				ns = append(ns, k+"="+v) // the value is what an include filter is matched against besides the key
 			}
 			for _, r := range fg.RelationList {
 				rs = append(rs, r.From+"->"+r.To)
@@ -376,6 +376,23 @@ func c08Run(dir string, scenario string) c08Obs {
 		render("arch", g)
 		render("merged-header", g.MergeHeaderFile(tequila.MergeHeaderFunc))
 		render("merged-package", g.MergeHeaderFile(tequila.MergePackageFunc))
+		// the merged graph drawn with a filter that matches some type names but not their package
+		for _, flt := range []string{"Service", "Repo", "Order"} {
+			flt := flt
+			mp, me, err := clusterPaths("di" + g.MergeHeaderFile(tequila.MergeHeaderFunc).ToMapDot(func(s string) bool { return strings.Contains(s, flt) }).String())
+			if err != nil {
+				out = append(out, "merged DOT "+flt+" UNPARSABLE "+err.Error())
+				continue
+			}
+			var ns, es []string
+			for _, p := range mp {
+				ns = append(ns, p)
+			}
+			for _, e := range me {
+				es = append(es, mp[e.From]+"->"+mp[e.To])
+			}
+			out = append(out, "merged dot ["+flt+"] nodes: "+sortedLines(ns), "merged dot ["+flt+"] edges: "+sortedLines(es))
+		}
 		paths, edges, err := clusterPaths("di" + g.ToMapDot(func(string) bool { return true }).String())
 		if err != nil {
 			out = append(out, "DOT UNPARSABLE "+err.Error())
